@@ -34,7 +34,8 @@ template<class T, int KIND> struct QuantTr : TrBase {
   // state which differs from the configuration (the smallest contributing k behind the published error) exists and must be carried by copies and moves
   template<int K = KIND> static typename std::enable_if<K == 0, void>::type absorb_smaller(Sk& s, int n) { Sk o(8, C(), s.get_allocator()); for (int i = 0; i < 40; ++i) o.update(Gen<T>::make(300 * n + i)); s.merge(o); }
   template<int K = KIND> static typename std::enable_if<K != 0, void>::type absorb_smaller(Sk&, int) {}
-  static void b(Sk& s, int n) { for (int i = 0; i < 30; ++i) s.update(Gen<T>::make(100 * n + i)); absorb_smaller(s, n); }
+  // classic quantiles (k = 2): 16 = 8k items leave the level pattern 100, i.e. empty levels below a full one
+  static void b(Sk& s, int n) { for (int i = 0; i < (KIND == 2 ? 16 : 30); ++i) s.update(Gen<T>::make(100 * n + i)); absorb_smaller(s, n); }
   static void merge(Sk& s, const Sk& o) { s.merge(o); } static void merge_move(Sk& s, Sk&& o) { s.merge(std::move(o)); }
   // REQ keeps state that no query shows at once but that decides when the sketch compacts next (the capacity it compares its
   // retained count with, per-level section geometry and compaction counters): part of "a move transfers the exact state"
@@ -350,13 +351,13 @@ struct LifeSys {
       case 'D': if (d.st == EMPTY) return false; delete d.p; d.p = nullptr; d.st = EMPTY; d.na = d.nb = 0; break;
       case 'Z': if (d.st != LIVE) return false; Tr::reset(*d.p); d.na = d.nb = 0; break;
       case 'S': if (d.st != LIVE) return false; { Sk& r = *d.p; *d.p = r; } if (c) c->ok("self-assignment-keeps-state", Tr::obs(*d.p) == before[o.i], "a = a changed the object: " + Tr::obs(*d.p).substr(0, 200) + " VS " + before[o.i].substr(0, 200)); break;
-      case 'c': if (d.st != EMPTY || src.st != LIVE) return false; d.p = new Sk(*src.p); d.st = LIVE; d.na = src.na; d.nb = src.nb;
+      case 'c': if (d.st != EMPTY || src.st != LIVE) return false; d.p = new Sk(*src.p); d.st = LIVE; d.na = 0; d.nb = 0;   /* a copy / assignee may be exercised afresh: what it inherited must carry it through further updates */
         if (c) { c->ok("copy-equals-source", Tr::obs(*d.p) == before[o.j], "copy: " + Tr::obs(*d.p).substr(0, 200) + " VS source: " + before[o.j].substr(0, 200)); c->ok("copy-leaves-source-unchanged", Tr::obs(*src.p) == before[o.j], "source changed by copy construction"); } break;
-      case 'm': if (d.st != EMPTY || src.st != LIVE) return false; d.p = new Sk(std::move(*src.p)); d.st = LIVE; d.na = src.na; d.nb = src.nb; src.st = MOVED; src.moved_by = 'm';
+      case 'm': if (d.st != EMPTY || src.st != LIVE) return false; d.p = new Sk(std::move(*src.p)); d.st = LIVE; d.na = 0; d.nb = 0;   /* a copy / assignee may be exercised afresh: what it inherited must carry it through further updates */ src.st = MOVED; src.moved_by = 'm';
         if (c) c->ok("move-transfers-state", Tr::obs(*d.p) == before[o.j], "moved-to: " + Tr::obs(*d.p).substr(0, 200) + " VS source before: " + before[o.j].substr(0, 200)); break;
-      case 'C': if (d.st == EMPTY || src.st != LIVE) return false; *d.p = *src.p; d.st = LIVE; d.na = src.na; d.nb = src.nb;
+      case 'C': if (d.st == EMPTY || src.st != LIVE) return false; *d.p = *src.p; d.st = LIVE; d.na = 0; d.nb = 0;   /* a copy / assignee may be exercised afresh: what it inherited must carry it through further updates */
         if (c) { c->ok("copy-assign-equals-source", Tr::obs(*d.p) == before[o.j], "assigned: " + Tr::obs(*d.p).substr(0, 200) + " VS source: " + before[o.j].substr(0, 200)); c->ok("copy-assign-leaves-source-unchanged", Tr::obs(*src.p) == before[o.j], "source changed by copy assignment"); } break;
-      case 'M': if (d.st == EMPTY || src.st != LIVE) return false; *d.p = std::move(*src.p); d.st = LIVE; d.na = src.na; d.nb = src.nb; src.st = MOVED; src.moved_by = 'M';
+      case 'M': if (d.st == EMPTY || src.st != LIVE) return false; *d.p = std::move(*src.p); d.st = LIVE; d.na = 0; d.nb = 0;   /* a copy / assignee may be exercised afresh: what it inherited must carry it through further updates */ src.st = MOVED; src.moved_by = 'M';
         if (c) c->ok("move-assign-transfers-state", Tr::obs(*d.p) == before[o.j], "assigned: " + Tr::obs(*d.p).substr(0, 200) + " VS source before: " + before[o.j].substr(0, 200)); break;
       case 'G': if (d.st != LIVE || src.st != LIVE || d.na + src.na > max_a + 1 || d.nb + src.nb > max_b + 1) return false; Tr::merge(*d.p, *src.p); d.na += src.na; d.nb += src.nb;
         if (c) c->ok("merge-by-reference-leaves-source-unchanged", Tr::obs(*src.p) == before[o.j], "source changed by merge(const&)"); break;
